@@ -108,7 +108,7 @@ impl Monitor for C17 {
         ]
     }
     fn rule(&self) -> String {
-        "case = one generated roll-over/GC-heavy history run on a directory seeded (before the first open and again between restarts) with foreign entries: near-miss names (19/21 digits, non-digit, other case/prefix, number not fitting u64, non-ASCII digits with a 24-byte name, 24-byte names with a multi-byte character across byte 4, names that are not valid UTF-8 (also created after the live WAL files), trailing newline, dot-prefixed), ordinary files, and sub-directories / symlinks (to a WAL file, dangling) / a unix socket named exactly like WAL files with numbers outside the live range; at some restarts the valid WAL files are renumbered with gaps; evaluation = one traced path-carrying syscall (open/create/read/write/ftruncate/unlink/rename) whose basename must match ^wal-[0-9]{20}$ and refer to a regular file (the directory itself may be opened read-only), or one foreign entry re-verified (type, size, content hash, link target) or one call compared with a twin log running the same history on a clean directory; one case in eight is a 'squatter' scenario: a symlink to a file outside the directory / a dangling symlink / a sub-directory sits exactly at the next file name the library will create; failed appends are retried and everything is truncated at the end (a GC pass); calls may fail with an I/O error but nothing may be written through, created, replaced or removed; distinct_nontrivial = distinct (foreign name, syscall kind it coexisted with) pairs and distinct path-event kinds x file numbers".into()
+        "case = one generated roll-over/GC-heavy history run on a directory seeded (before the first open and again between restarts) with foreign entries: near-miss names (19/21 digits, non-digit, other case/prefix, number not fitting u64, non-ASCII digits with a 24-byte name, 24-byte names with a multi-byte character across byte 4, names that are not valid UTF-8 (also created after the live WAL files), trailing newline, dot-prefixed), ordinary files, and sub-directories / symlinks (to a WAL file, dangling) / a unix socket named exactly like WAL files with numbers outside the live range; at some restarts the valid WAL files are renumbered with gaps; evaluation = one traced path-carrying syscall (open/create/read/write/ftruncate/unlink/rename) whose basename must match ^wal-[0-9]{20}$ and refer to a regular file (the directory itself may be opened read-only), or one foreign entry re-verified (type, size, content hash, link target) or one call compared with a twin log running the same history on a clean directory; one case in eight is a 'squatter' scenario: a symlink to a file (one in four: an empty file) outside the directory / a dangling symlink / a sub-directory sits exactly at the next file name the library will create; failed appends are retried and everything is truncated at the end (a GC pass); calls may fail with an I/O error but nothing may be written through, created, replaced or removed; distinct_nontrivial = distinct (foreign name, syscall kind it coexisted with) pairs and distinct path-event kinds x file numbers".into()
     }
     fn assumptions(&self) -> Vec<String> {
         vec!["sub-directories / symlinks named exactly like WAL files are only placed at numbers the log will never create (below the oldest live file or above 2^40): a name collision with a future file makes create fail with an I/O error, which the statement does not forbid".into()]
@@ -441,7 +441,8 @@ fn squatter_case(ctx: &Ctx, case: u64, acc: &mut Acc) {
     let dir = ctx.scratch.sub("c17-squat");
     let outside = ctx.scratch.sub("c17-outside");
     let key = parts[2];
-    let mut precious = vec![0u8; rng.usize(10, 200_000)];
+    // one outside file in four is EMPTY: it looks like a WAL file left unsized by a crash
+    let mut precious = vec![0u8; if rng.chance(1, 4) { 0 } else { rng.usize(10, 200_000) }];
     rng.fill(&mut precious);
     let precious_path = outside.join("precious.dat");
     std::fs::write(&precious_path, &precious).expect("write precious");
